@@ -7,6 +7,7 @@
   for `intensity` / `fluxCol` / `eclipse`.
 -/
 import Proofs.C02Full
+import Proofs.C02Flux
 
 namespace Taurex.C02
 open Taurex.Emission
@@ -256,5 +257,89 @@ example : Valid ⟨3, 1, 1, 1, 1, 1⟩
     match l, hl with
     | 0, _ => norm_num
     | 1, _ => norm_num
+
+/-- **flux level**: the emergent flux of any valid atmosphere (Gauss–Legendre quadrature with non-negative weights, any
+    number of angles) lies between the Planck functions of its coldest and hottest temperature, the upper bound relaxed by
+    the licensed `exp(-10)`; `npPi` is `np.pi` of `path_integral`, `k.pi` the `PI` of the black-body kernel. -/
+theorem flux_between (k : PC ℝ) (npPi : ℝ) (cols : List (Col ℝ)) (dz dens temps : List ℝ) (col : Col ℝ)
+    (tmin tmax : ℝ) (xs wts : List ℝ)
+    (hv : Valid k cols dz dens temps col tmin tmax) (hnp : 0 ≤ npPi)
+    (hlen : xs.length = wts.length) (hx : ∀ x ∈ xs, -1 < x ∧ x ≤ 1) (hw : ∀ w ∈ wts, 0 ≤ w)
+    (h0 : wts.sum = 2) (h1 : ((xs.zip wts).map (fun p => p.2 * p.1)).sum = 0) :
+    npPi / k.pi * planck k col.nu tmin ≤ fluxCol k npPi cols dz dens temps xs wts col ∧
+    fluxCol k npPi cols dz dens temps xs wts col ≤ (1 + Real.exp (-10)) * (npPi / k.pi * planck k col.nu tmax) := by
+  have hpi : 0 < k.pi := hv.pc.1
+  unfold fluxCol
+  rw [fluxOf_map]
+  have hS : ((xs.zip wts).map (fun p => wOf p.2 / muInvOf p.1)).sum = 1 / 2 := by
+    have hs : ((xs.zip wts).map (fun p => p.2)).sum = 2 := by
+      have : (xs.zip wts).map (fun p => p.2) = wts := by
+        have := List.map_snd_zip (l₁ := xs) (l₂ := wts) (by omega)
+        simpa using this
+      rw [this, h0]
+    rw [quad_sum (xs.zip wts) (by
+      intro p hp
+      have := (hx p.1 (List.of_mem_zip hp).1).1
+      linarith), h1, hs]
+    norm_num
+  have hb := sum_weighted_bounds (fun x => intensity k cols dz dens temps (muInvOf x) col)
+    (planck k col.nu tmin / k.pi) ((1 + Real.exp (-10)) * (planck k col.nu tmax / k.pi)) (xs.zip wts)
+    (fun p => wOf p.2 / muInvOf p.1)
+    (by
+      intro p hp
+      have hxp := hx p.1 (List.of_mem_zip hp).1
+      have hm : 1 ≤ muInvOf p.1 := by
+        unfold muInvOf muOf
+        rw [le_div_iff₀ (by linarith)]
+        linarith
+      exact intensity_between k cols dz dens temps col tmin tmax _ hv hm)
+    (by
+      intro p hp
+      have hxp := hx p.1 (List.of_mem_zip hp).1
+      have hwp := hw p.2 (List.of_mem_zip hp).2
+      have hm : 0 < muInvOf p.1 := by
+        unfold muInvOf muOf
+        apply div_pos one_pos
+        linarith
+      exact div_nonneg (by unfold wOf; linarith) hm.le)
+  rw [hS] at hb
+  obtain ⟨hlo, hhi⟩ := hb
+  have e1 : npPi / k.pi * planck k col.nu tmin = 2 * npPi * (planck k col.nu tmin / k.pi * (1 / 2)) := by
+    field_simp
+  have e2 : (1 + Real.exp (-10)) * (npPi / k.pi * planck k col.nu tmax)
+      = 2 * npPi * ((1 + Real.exp (-10)) * (planck k col.nu tmax / k.pi) * (1 / 2)) := by
+    field_simp
+  rw [e1, e2]
+  constructor
+  · exact mul_le_mul_of_nonneg_left hlo (by linarith)
+  · exact mul_le_mul_of_nonneg_left hhi (by linarith)
+
+/-- **eclipse level**: with `np.pi = PI` and a positive stellar SED, the eclipse depth lies between the black-body ratios
+    of the coldest and hottest layer, times `(Rp/Rs)²`, the upper bound relaxed by `exp(-10)` -/
+theorem eclipse_between (k : PC ℝ) (cols : List (Col ℝ)) (dz dens temps : List ℝ) (col : Col ℝ)
+    (tmin tmax sed rp rs : ℝ) (xs wts : List ℝ)
+    (hv : Valid k cols dz dens temps col tmin tmax) (hsed : 0 < sed)
+    (hlen : xs.length = wts.length) (hx : ∀ x ∈ xs, -1 < x ∧ x ≤ 1) (hw : ∀ w ∈ wts, 0 ≤ w)
+    (h0 : wts.sum = 2) (h1 : ((xs.zip wts).map (fun p => p.2 * p.1)).sum = 0) :
+    planck k col.nu tmin / sed * ((rp / rs) * (rp / rs))
+      ≤ eclipse (fluxCol k k.pi cols dz dens temps xs wts col) sed rp rs ∧
+    eclipse (fluxCol k k.pi cols dz dens temps xs wts col) sed rp rs
+      ≤ (1 + Real.exp (-10)) * (planck k col.nu tmax / sed * ((rp / rs) * (rp / rs))) := by
+  have hpi : 0 < k.pi := hv.pc.1
+  obtain ⟨hlo, hhi⟩ := flux_between k k.pi cols dz dens temps col tmin tmax xs wts hv hpi.le hlen hx hw h0 h1
+  rw [div_self hpi.ne', one_mul] at hlo hhi
+  unfold eclipse
+  have hr : 0 ≤ (rp / rs) * (rp / rs) := mul_self_nonneg _
+  constructor
+  · apply mul_le_mul_of_nonneg_right _ hr
+    exact div_le_div_of_nonneg_right hlo hsed.le
+  · have : (1 + Real.exp (-10)) * (planck k col.nu tmax / sed * ((rp / rs) * (rp / rs)))
+        = ((1 + Real.exp (-10)) * planck k col.nu tmax) / sed * ((rp / rs) * (rp / rs)) := by ring
+    rw [this]
+    apply mul_le_mul_of_nonneg_right _ hr
+    exact div_le_div_of_nonneg_right hhi hsed.le
+
+/-- NV for the quadrature hypotheses: the two-point Gauss–Legendre rule -/
+example : ∀ w ∈ [(1:ℝ), 1], 0 ≤ w := by intro w hw; simp at hw; subst hw; norm_num
 
 end Taurex.C02
